@@ -124,6 +124,38 @@ func c08(c *Ctx) {
 	}
 
 	c08events(c, add, del)
+	if fn := c.FnOpt(loadawarePkg, "nodeInfo", "AddOrUpdateNodeMetric"); fn != nil {
+		r.Rule("PATH(report => rebuild): in AddOrUpdateNodeMetric, once the new report is recorded (n.nodeMetric = metric) no return is reachable without the sums having been rebuilt (the re-initialisation of nodeDelta and the re-adding of the pods): while the metric was absent pod events did not touch the sums, and the report interval can change without the update time changing, so 'same update time' is no reason to keep them")
+		var rec *ssa.Store
+		for _, b := range fn.Blocks {
+			for _, in := range b.Instrs {
+				if st, ok := in.(*ssa.Store); ok {
+					if _, f, _, ok := an.FieldOf(st.Addr); ok && f == "nodeMetric" && !an.IsNilConst(st.Val) {
+						rec = st
+					}
+				}
+			}
+		}
+		if rec == nil {
+			r.Unknown("PATH", fkey(fn)+"/report=>rebuild", c.Pos(fn.Pos()), "store of the new report not found")
+		} else {
+			reach := an.Explore(fn, an.After(rec), nil, func(in ssa.Instruction) bool {
+				cl, ok := in.(ssa.CallInstruction)
+				return ok && an.ShortCallee(cl.Common()) == "addPod"
+			})
+			// a node without pods has nothing to re-add: the exit of the (empty) loop is fine, so the barrier is the reset store
+			reach2 := an.Explore(fn, an.After(rec), nil, func(in ssa.Instruction) bool {
+				st, ok := in.(*ssa.Store)
+				if !ok {
+					return false
+				}
+				_, f, _, ok := an.FieldOf(st.Addr)
+				return ok && f == "nodeDelta"
+			})
+			_ = reach
+			r.Check(len(reach2.Returns()) == 0, "PATH", fkey(fn)+"/report=>rebuild", c.InstrPos(rec), "a recorded report always rebuilds the sums", "after the report was recorded a return is reachable without re-initialising the sums: the kept estimate drifts from what would be computed from scratch")
+		}
+	}
 
 	// rebuild resets every accumulator
 	if fn := c.Fn(loadawarePkg, "nodeInfo", "AddOrUpdateNodeMetric"); fn != nil && add != nil {
@@ -220,6 +252,7 @@ func c08(c *Ctx) {
 	}
 	if fn := c.Fn(loadawarePkg, "usageThresholdsFilterProfile", "generateUsageThresholdsFilterProfile"); fn != nil {
 		c08profile(c, fn)
+		c08aggregated(c, fn)
 	}
 	r.Rule("EFFECT: generateUsageThresholdsFilterProfile (called concurrently for every node) and the estimator's EstimatePod/EstimateNode (called for every pod and node) write nothing reachable from the shared object they are invoked on, directly or through a callee that receives part of it")
 	for _, t := range []struct{ pkg, recv, name, what string }{
@@ -237,6 +270,115 @@ func c08(c *Ctx) {
 			ss = append(ss, e.String()+" @"+c.InstrPos(e.Instr))
 		}
 		r.Check(len(es) == 0, "EFFECT", fkey(fn)+"/pure", c.Pos(fn.Pos()), "no write through the shared receiver", t.what+": "+strings.Join(ss, "; ")+" — every later caller sees them")
+	}
+}
+
+// assumeLen0 / assumeEmpty set, for every comparison of len(<..suffix>) with 0 (of <..suffix> with ""), the outcome it has
+// when the length is 0 (the string is empty), whatever way the comparison is spelled.
+func assumeLen0(fn *ssa.Function, suffix string, f an.Facts) int {
+	n := 0
+	for _, b := range fn.Blocks {
+		for _, in := range b.Instrs {
+			bo, ok := in.(*ssa.BinOp)
+			if !ok {
+				continue
+			}
+			call, isCall := bo.X.(*ssa.Call)
+			k, isC := constIntOf(bo.Y)
+			if !isCall || !isC || k != 0 || !an.IsBuiltinCall(call, "len") || !strings.HasSuffix(an.Path(call.Call.Args[0]), suffix) {
+				continue
+			}
+			switch bo.Op {
+			case token.GTR, token.NEQ, token.LSS:
+				f[bo] = an.False
+				n++
+			case token.EQL, token.LEQ, token.GEQ:
+				f[bo] = an.True
+				n++
+			}
+		}
+	}
+	return n
+}
+
+func assumeEmpty(fn *ssa.Function, suffix string, f an.Facts) int {
+	n := 0
+	for _, b := range fn.Blocks {
+		for _, in := range b.Instrs {
+			bo, ok := in.(*ssa.BinOp)
+			if !ok || (bo.Op != token.EQL && bo.Op != token.NEQ) {
+				continue
+			}
+			if str, isC := constString(bo.Y); !isC || str != "" || !strings.HasSuffix(an.Path(bo.X), suffix) {
+				continue
+			}
+			if bo.Op == token.EQL {
+				f[bo] = an.True
+			} else {
+				f[bo] = an.False
+			}
+			n++
+		}
+	}
+	return n
+}
+
+// c08aggregated: a half-specified aggregated section of the node annotation is dropped.
+func c08aggregated(c *Ctx, fn *ssa.Function) {
+	r := c.R
+	r.Rule("PATH(aggregated section): in generateUsageThresholdsFilterProfile, with an aggregated section present whose thresholds are empty (resp. whose aggregation type is empty), the per-node aggregated profile cannot be built without the section having been reset to nil first (a half-specified section would otherwise replace the whole-node thresholds, or disable filtering with an all-zero vector)")
+	key := fkey(fn)
+	var reset *ssa.Store
+	var build *ssa.Alloc
+	for _, b := range fn.Blocks {
+		for _, in := range b.Instrs {
+			switch x := in.(type) {
+			case *ssa.Store:
+				if _, f, _, ok := an.FieldOf(x.Addr); ok && f == "AggregatedUsage" && an.IsNilConst(x.Val) {
+					reset = x
+				}
+			case *ssa.Alloc:
+				if x.Heap && strings.HasSuffix(x.Type().String(), "aggregatedUsageFilterProfile") {
+					build = x
+				}
+			}
+		}
+	}
+	if reset == nil || build == nil {
+		r.Unknown("PATH", key+"/aggregated-section", c.Pos(fn.Pos()), sprintf("reset of the section found: %v, construction of the aggregated profile found: %v", reset != nil, build != nil))
+		return
+	}
+	for _, sc := range []struct{ name, lenSuffix, strSuffix string }{
+		{"thresholds-empty", ".UsageThresholds", ""},
+		{"type-empty", "", ".UsageAggregationType"},
+	} {
+		f := an.Facts{}
+		// the section is present: nil tests of the section that are evaluated before the reset
+		for _, b := range fn.Blocks {
+			if !(b == reset.Block() || b.Dominates(reset.Block())) {
+				continue
+			}
+			for _, in := range b.Instrs {
+				bo, ok := in.(*ssa.BinOp)
+				if !ok || (bo.Op != token.EQL && bo.Op != token.NEQ) || !an.IsNilConst(bo.Y) || !strings.HasSuffix(an.Path(bo.X), ".AggregatedUsage") {
+					continue
+				}
+				if bo.Op == token.NEQ {
+					f[bo] = an.True
+				} else {
+					f[bo] = an.False
+				}
+			}
+		}
+		n := len(f)
+		if sc.lenSuffix != "" {
+			// only the thresholds of the aggregated section (its path goes through .AggregatedUsage)
+			n += assumeLen0(fn, ".AggregatedUsage"+sc.lenSuffix, f)
+		} else {
+			n += assumeEmpty(fn, ".AggregatedUsage"+sc.strSuffix, f)
+		}
+		reach := an.Explore(fn, nil, f, func(in ssa.Instruction) bool { return in == ssa.Instruction(reset) })
+		r.Check(n >= 2 && !reach.Reached(build), "PATH", key+"/aggregated-section/"+sc.name, c.InstrPos(reset), "a half-specified aggregated section is reset before it can be used", sprintf("with the aggregated section's %s the aggregated profile can still be built without the section having been reset (%d tests recognised)", sc.name, n))
 	}
 }
 
